@@ -25,8 +25,59 @@ def analyse(pkg):
     rules_T5(oa)
     rules_fixed(oa)
     rules_solve_update(oa)
+    semantic_update_check(oa)
     _CACHE[id(pkg)] = oa
     return oa
+
+
+SWEEP_SYNTACTIC_KEYS = ("C03-d/update-covers-all-vertices", "C03-d/update-step", "C06-d/optimize/update-loop", "C03-d/update-loop-extra")
+
+
+def semantic_update_check(oa):
+    """Decide the update-loop rules semantically (translation of the pose-writing statements on graph shapes with a symbolic dx).
+    When that succeeds it *replaces* the verdicts of the syntactic recognisers for the same rules (which only know a few idioms);
+    when the translation is not possible the syntactic verdicts stand."""
+    from .assembly import SCENARIOS, update_sweep_obligation
+    from . import poly as _poly
+    cfg = oa.cfg
+    sweeps = [cfg.stmt[n] for n in sorted(oa.sweep_nodes)]
+    dx_names = set()
+    for n in oa.solve_nodes:
+        st = cfg.stmt[n]
+        if isinstance(st, ast.Assign):
+            for t in st.targets:
+                if isinstance(t, ast.Name):
+                    dx_names.add(t.id)
+    if not sweeps or not dx_names:
+        return
+    # only statements inside the main loop (the per-iteration update)
+    inside = {id(x) for x in ast.walk(oa.main_loop)}
+    sweeps = [st for st in sweeps if id(st) in inside]
+    from .assembly import Scenario
+    mixed = ["PoseSE3", "PoseR2", "PoseSE2", "PoseR3"]
+    sweep_scns = [s for s in SCENARIOS if s.name in ("free", "fix-first", "fixed-two", "all-fixed")] + [
+        Scenario("mixed-free", mixed, [(0, 3), (2, 1)]), Scenario("mixed-fix-first", mixed, [(0, 3), (2, 1)], fix_first_pose=True),
+        Scenario("mixed-fixed-middle", mixed, [(0, 3), (2, 1)], fixed=[1, 2]), Scenario("mixed-fixed-last", mixed[::-1], [(0, 3), (2, 1)], fixed=[3])]
+    results = []
+    for scn in sweep_scns:
+        _poly.reset()
+        results.append((scn, update_sweep_obligation(scn, sweeps, dx_names)(oa.pkg)))
+    _poly.reset()
+    oa.semantic_update = [(scn.name, r["status"], r["detail"][:300]) for scn, r in results]
+    if any(r["status"] == "error" for _, r in results):
+        return
+    bad = [(scn, r) for scn, r in results if r["status"] == "violation"]
+    for f in oa.findings:
+        if f.key.startswith(SWEEP_SYNTACTIC_KEYS):
+            f.ok = True
+            f.what = ""
+    anchor = sweeps[0]
+    for scn, r in results:
+        oa.add("C03-d/update-semantic/%s" % scn.name, "C03-d-solve-and-update", r["status"] == "ok",
+               "pose update on graph shape `%s`: %s" % (scn.name, r["detail"][:400]), anchor)
+        if scn.fixed or scn.ffp:
+            oa.add("C06-d/optimize/update-semantic/%s" % scn.name, "C06-d-fixed-pose-never-written", r["status"] == "ok",
+                   "pose update on graph shape `%s`: %s" % (scn.name, r["detail"][:400]), anchor)
 
 
 def report(run_, oa, prefixes):
@@ -97,13 +148,20 @@ def rules_T1(oa):
             obj = fs[0].value
             okey = oa.var_key(obj)
             states = oa.states_at(n)
+            rel = oa.index_from_loopvar(obj)      # iteration_results[i - k] / [max_iter - k]
             if isinstance(obj, ast.Name) and not any(t.startswith("R_") for s in states for v, t in s.tags if v == okey):
                 continue     # not an IterationResult object
             n_iter += 1
             for s in states:
                 oa.add("C12-T1/iteration.chi2@%s/value" % s.phase, "C12-T1-report-fresh", "CUR" in oa.tags_of(s, fs[1]),
                        "iteration chi2 is assigned from `%s`, which does not hold chi^2 of the current poses there" % unp(fs[1]), st)
-                otags = {t for v, t in s.tags if v == okey} if okey is not None else set()
+                key_s = okey
+                if key_s is None and rel is not None:
+                    # position from the end = (#objects appended so far) - index ; #objects = i + appends (in the loop) / max_iter (after it)
+                    base, k = rel
+                    from_end = (s.appends + k) if (base == "loopvar" and s.phase in ("first", "later")) else (k if base == "bound" and s.phase == "post" else None)
+                    key_s = {1: "$last", 2: "$last2"}.get(from_end)
+                otags = {t for v, t in s.tags if v == key_s} if key_s is not None else set()
                 ok = "R_SWEPT" in otags and not s.pristine
                 oa.add("C12-T1/iteration.chi2@%s/slot" % s.phase, "C12-T1-report-fresh", ok,
                        "`%s.chi2` is written, but `%s` is not the result object of the iteration whose update produced the current poses "
